@@ -97,8 +97,8 @@ def check_render(profile, shown, report):
     out = []
     ev, h, u = shown
     expect_refactor = u > 0 or h > 20
-    # the width of the console is part of the environment: wide always, a narrow one (a split pane, a CI log column) for every 5th total
-    widths = (250, 60) if sum(profile) % 5 == 0 else (250,)
+    # the width of the console is part of the environment: wide always, a narrow one (a split pane, a CI log column) for every 10th total
+    widths = (250, 60) if sum(profile) % 10 == 0 else (250,)
     for fmt, mod, width in [(f, m, w) for w in widths for f, m in (("text", format_text), ("markdown", format_markdown))]:
         text = harness.render(mod.print_summary, report, console_pos=0, width=width)
         lines = [l for l in text.splitlines() if l.strip()]
@@ -121,7 +121,7 @@ def check_render(profile, shown, report):
         elif says_necessary != expect_refactor:
             out.append(("verdict-wrong", {"format": fmt, "says_necessary": says_necessary, **({"console_width": width} if width != 250 else {})},
                         f"{fmt}: shown (ev,h,u)={(ev, h, u)} profile {profile} verdict {verdict[0].strip()!r}"))
-    if sum(profile) % 10 == 0 and sum(profile) > 0:
+    if sum(profile) % 20 == 0 and sum(profile) > 0:
         # the whole report next to a comparison report whose verdict is the OPPOSITE one: the summary is about the current report
         other = _other_report(not expect_refactor)
         for fmt, mod in (("text", format_text), ("markdown", format_markdown)):
